@@ -650,6 +650,22 @@ pub fn gen_scenarios(seed: u64, tier: &str) -> Vec<Scenario> {
                 pr.truncate(pos + 1);
             }
         }
+        if id % 10 == 4 {
+            // directed: an overwriting commit held just before the rename that publishes it, while another server reads
+            // (Get, sometimes twice) the same path: the reader must see an acknowledged version
+            let cur = init.iter().find(|(p, _)| *p == shared).map(|(_, c)| c.clone());
+            if let Some(curc) = cur {
+                let mut b1 = content(&mut r, &pool[..6]);
+                if b1 == curc { b1.push(b'!'); }
+                let p0 = Req::Put { path: shared.to_string(), exp: Some(curc.clone()), decl: b1.clone(), len: b1.len() as u64, pieces: vec![b1.clone()] };
+                let mut p1 = vec![Req::Get { path: shared.to_string() }];
+                if r.chance(1, 2) { p1.push(Req::Get { path: shared.to_string() }); }
+                let mut policy = vec![Pol::Until(0, "rename".to_string())];
+                policy.extend((0..40).map(|_| Pol::Step(1)));
+                out.push(Scenario { id, init, progs: vec![vec![p0], p1], policy, class: "directed:overwrite-vs-reader".into(), pidns: r.chance(1, 4) });
+                continue;
+            }
+        }
         if id % 10 == 9 {
             // directed: lock hand-off with a third writer.  p0 holds the tree lock (request on another path) while p1 queues
             // on it; p0 releases; p1 passes its compare and stops before its rename; p2 arrives and must wait for p1.
